@@ -134,7 +134,7 @@ XY_TERMS = (Term('X', (('str', 'x', ''),)), Term('Y', (('str', 'y', ''),)))
 
 
 class EBNF:
-    def __init__(self, n, menu=None, helpers=None, terms=XY_TERMS, ignore=(), helper_name='a', helper_mod=''):
+    def __init__(self, n, menu=None, helpers=None, terms=XY_TERMS, ignore=(), helper_name='a', helper_mod='', helper_prio=None, start_alts=None):
         self.menu = menu or ebnf_menu()
         self.helpers = helpers or HELPERS
         self.n = n
@@ -143,7 +143,8 @@ class EBNF:
             self.bodies.extend(itertools.product(range(len(self.menu)), repeat=k))
         self.size = len(self.bodies) * len(self.helpers)
         self.terms, self.ignore = tuple(terms), tuple(ignore)
-        self.helper_name, self.helper_mod = helper_name, helper_mod
+        self.helper_name, self.helper_mod, self.helper_prio = helper_name, helper_mod, helper_prio
+        self.start_alts = start_alts
 
     def __len__(self):
         return self.size
@@ -154,7 +155,10 @@ class EBNF:
         uses_a = any(it == A_ for it in gram.items_of(body))
         rules = [Rule('start', '', None, ((body, None),))]
         if uses_a:
-            rules.append(Rule('a', self.helper_mod, None, tuple((s, None) for s in self.helpers[h])))
+            rules.append(Rule('a', self.helper_mod, self.helper_prio, tuple((s, None) for s in self.helpers[h])))
+            if self.start_alts:     # extra competing alternatives of start (priority families)
+                rules[0] = Rule('start', '', None, ((body, None),) + tuple(self.start_alts))
+                rules += [Rule('b', '', 1, (((X,), None), ((X, Y), None), ((Y,), None)))]
         elif h != 0:
             return None         # helper unused: only count the grammar once
         return Grammar(rules, self.terms, self.ignore)
